@@ -539,7 +539,37 @@ def scenario_deep_recursion(r):
     return " ".join(parts) + " M " + " ".join(main)
 
 
-SCENARIOS = [scenario_owner_sweep] * 9 + [scenario_deep_recursion]
+def scenario_last_handle(r):
+    """a running slot destroys the last handle of the emitting signal (every emitter flavour): the
+    emission must keep the list alive until it returns, then everything is disconnected"""
+    rk = r.choice("iiv")
+    accs = ""
+    acc = -1
+    if r.random() < 0.5:
+        acc = 0
+        accs = "A 0 %s " % r.choice(["awalk 2", "awalkp 2", "awalkrev 2", "aderef 2 ainc 2 aderef 2 ainc 2 aderef 2", "awalk 2 awalkrev 3"])
+    track = r.randint(0, 1)
+    k = r.randint(2, 4)
+    killer = r.randint(1, k)
+    main = ["gnew 0 %s %d %d" % (rk, acc, track)]
+    if r.random() < 0.4:
+        main += ["gcopy 1 0", "gdel 1"]
+    for i in range(1, k + 1):
+        main += ["snew %d %s %d p 0" % (i, rk, i), "gconn 0 %d %d %d 0" % (i, i, 1 if r.random() < 0.3 else 0)]
+    parts = []
+    for i in range(1, k + 1):
+        ops = []
+        if i == killer:
+            ops = ["gdel 0"] + (["cq %d" % r.randint(1, k)] if r.random() < 0.5 else [])
+        elif r.random() < 0.3:
+            ops = ["cq %d" % r.randint(1, k)]
+        parts.append("S %d a %d %s" % (i, i, " ".join(ops)))
+    main += ["gemit 0 %d 1" % r.randint(0, 9)] + ["cq %d" % i for i in range(1, k + 1)] + ["gq 0", "probe"]
+    main += ["sdel %d" % i for i in range(1, k + 1)] + ["cdel %d" % i for i in range(1, k + 1)] + ["probe"]
+    return " ".join((accs + " ".join(parts) + " M " + " ".join(main)).split())
+
+
+SCENARIOS = [scenario_owner_sweep] * 6 + [scenario_last_handle] * 3 + [scenario_deep_recursion]
 
 
 def scenarios(seed, count):
